@@ -10,13 +10,14 @@ Open Scope Z_scope.
 
 (* ---- outcomes -------------------------------------------------------------------------------------------- *)
 (* the exception classes the translated functions can raise, plus those of the translated operators *)
-Inductive exn := ValueError | AssertionError | IndexError | ZeroDivisionError | TypeError | NotImplementedError | ArithmeticError.
+Inductive exn := ValueError | AssertionError | IndexError | ZeroDivisionError | TypeError | NotImplementedError | ArithmeticError
+               | PassedException.   (* `raise e` where e is a parameter holding an exception object built by the caller *)
 
 (* outcome of evaluating a Python expression / running a function body:
      Ret v          normal completion with value v
-     Raise e k      exception of class e; k identifies the raising site: for a `raise`/`assert` statement it is the
-                    0-based ordinal of that statement among the raise/assert statements of the translated function
-                    in source order, for an operator (//, %, x[i]) it is 0
+     Raise e k      exception of class e; k identifies the raising site: for a `raise`/`assert` statement it is
+                    Target.site_base (default 0) + the 0-based ordinal of that statement among the raise/assert
+                    statements of the translated function in source order, for an operator (//, %, x[i], heappop) it is 0
      OutOfFuel      only for recursive functions: the explicit fuel ran out (equivalence theorems show it is never
                     returned for the fuel the caller passes) *)
 Inductive result (A : Type) : Type := Ret (a : A) | Raise (e : exn) (site : nat) | OutOfFuel.
@@ -26,6 +27,17 @@ Arguments OutOfFuel {A}.
 
 Definition bind {A B} (r : result A) (f : A -> result B) : result B :=
   match r with Ret a => f a | Raise e k => Raise e k | OutOfFuel => OutOfFuel end.
+
+(* Functions that update lists owned by `self` (Target.state) get those lists as extra parameters and return
+   `Ret (completion, final lists)`: how the body ended - by `return v` / falling off the end (Returned v) or by a `raise`
+   STATEMENT (Raised e k) - together with the lists as they are at that moment, so that an update made before a raise is
+   not lost.  (An operator that fails inside such a function is still `Raise`, without the lists.) *)
+(* an exception object built by the caller and passed in as an argument: nothing is known about it *)
+Definition py_exception := unit.
+
+Inductive completion (A : Type) : Type := Returned (a : A) | Raised (e : exn) (site : nat).
+Arguments Returned {A} a.
+Arguments Raised {A} e site.
 
 (* ---- int operators that can fail --------------------------------------------------------------------------- *)
 (* Python `a // b` and `a % b` on ints: floor division, result of % has the sign of b - exactly Coq's Z.div / Z.modulo
@@ -76,6 +88,51 @@ Fixpoint py_for {S A} (body : S -> A -> result S) (l : list A) (s : S) : result 
   | [] => Ret s
   | x :: r => bind (body s x) (fun s' => py_for body r s')
   end.
+
+(* [f(x) for x in l] / tuple(f(x) for x in l) with an f that can raise: elements are computed left to right *)
+Fixpoint py_mapM {A B} (f : A -> result B) (l : list A) : result (list B) :=
+  match l with
+  | [] => Ret []
+  | x :: r => bind (f x) (fun y => bind (py_mapM f r) (fun ys => Ret (y :: ys)))
+  end.
+
+(* l * n and (x,) * n : n copies of l one after the other, none for n <= 0 *)
+Definition py_list_mul {A} (l : list A) (n : Z) : list A := concat (repeat l (Z.to_nat n)).
+
+(* set(l) only ever appears as len(set(l)): the number of distinct elements *)
+Definition py_len_set (l : list Z) : Z := py_len (nodup Z.eq_dec l).
+
+(* enumerate(l) *)
+Definition py_enumerate {A} (l : list A) : list (Z * A) := combine (py_range 0 (py_len l)) l.
+
+(* sorted(l, key=operator.itemgetter(1), reverse=True) on pairs with an int second component: descending in the key and
+   STABLE - Python keeps elements with equal keys in their original order also with reverse=True.  Insertion sort: the
+   head, which comes first in the input, goes in front of every element that is not strictly larger. *)
+Fixpoint py_insert_desc {A} (x : A * Z) (l : list (A * Z)) : list (A * Z) :=
+  match l with
+  | [] => [x]
+  | y :: r => if snd x <? snd y then y :: py_insert_desc x r else x :: l
+  end.
+Fixpoint py_sorted_desc_snd {A} (l : list (A * Z)) : list (A * Z) :=
+  match l with [] => [] | x :: r => py_insert_desc x (py_sorted_desc_snd r) end.
+
+(* heapq on a list of (int, int) pairs.  Trusted contract of heapq: heappop removes and returns the least element under
+   Python's tuple order (lexicographic) and raises IndexError on an empty heap; heappush adds an element; heapify only
+   rearranges.  The heap is therefore modelled as a bag (a list in arbitrary order); the array layout is not modelled. *)
+Definition pq_leb (x y : Z * Z) : bool := (fst x <? fst y) || ((fst x =? fst y) && (snd x <=? snd y)).
+Fixpoint pq_pop_min (h : list (Z * Z)) : option ((Z * Z) * list (Z * Z)) :=
+  match h with
+  | [] => None
+  | x :: r =>
+      match pq_pop_min r with
+      | None => Some (x, [])
+      | Some (y, r') => if pq_leb x y then Some (x, r) else Some (y, x :: r')
+      end
+  end.
+Definition pq_heapify (h : list (Z * Z)) : list (Z * Z) := h.
+Definition pq_push (h : list (Z * Z)) (x : Z * Z) : list (Z * Z) := x :: h.
+Definition pq_pop (h : list (Z * Z)) : result ((Z * Z) * list (Z * Z)) :=
+  match pq_pop_min h with Some r => Ret r | None => Raise IndexError 0 end.
 
 (* ---- itertools (iterators are consumed once by the callers; as values they are the lists of what they yield) -- *)
 (* compress(data, selectors): stops at the shorter argument *)
